@@ -24,7 +24,7 @@ PROPS = {
         "assumptions": ["runtime half (the silicon agrees with the modelled intrinsics; every alignment) is observed by the correspondence run on every path the host offers, not proved: labelled partial in DESIGN.md"],
     },
     "C12": {
-        "thm_modules": ["Rq.Thm.C12"],
+        "thm_modules": ["Rq.Thm.C12", "Rq.Thm.C12b"],
         "engines": [("kernels", "release"), ("kernels", "debug"), ("slab", "release"), ("slab", "debug")],
         "modelled": ["accesses are (buffer, offset, width) triples produced by the same loop skeletons as the kernels; that the Rust pointer expressions are these offsets is validated by guard pages, not proved"],
         "assumptions": ["every kernel operand of the correspondence run is placed flush against PROT_NONE guard pages (end-flush / start-flush / 64 offsets); a fault is reported with the exact case"],
